@@ -2,6 +2,7 @@
 //! tree) and prints one protocol line per case; the Lean `driver` evaluates model and oracle on
 //! the same lines. Usage: harness <property> [--tier quick|thorough] [--seed N] [--stats FILE]
 #![feature(step_trait)]
+#![feature(abi_x86_interrupt)]
 #![allow(clippy::all)]
 
 mod gen;
@@ -25,6 +26,9 @@ mod c16;
 mod c17;
 mod c18;
 mod softmmu;
+mod c13;
+mod c13_gen;
+mod deliver;
 
 use gen::Rng;
 use out::Out;
@@ -110,6 +114,7 @@ fn main() {
         "C16" => c16::run(&mut out, &mut rng, tier),
         "C17" => c17::run(&mut out, &mut rng, tier),
         "C18" => c18::run(&mut out, &mut rng, tier),
+        "C13" => c13::run(&mut out, &mut rng, tier),
         "trapselftest" => match trap::selftest() {
             Ok(()) => eprintln!("trap selftest ok ({} traps)", trap::total_traps()),
             Err(e) => {
